@@ -98,6 +98,11 @@
 # include <psapi.h>     // for PROCESS_MEMORY_COUNTERS (yes, this include has to be down here)
 #endif
 
+#ifdef MUSCLE_VERIF_HOOKS
+# include "support/VerifSimHooks.h"
+MuscleVerifSimHooks * g_muscleVerifSim = NULL;
+#endif
+
 namespace muscle {
 
 #ifdef MUSCLE_COUNT_STRING_COPY_OPERATIONS
@@ -2901,6 +2906,10 @@ uint32 GetInsecurePseudoRandomNumber32(uint32 maxVal)
 {
    if (maxVal == 0) return 0;
 
+#ifdef MUSCLE_VERIF_HOOKS
+   {uint32_t vr; if ((g_muscleVerifSim)&&(g_muscleVerifSim->random32)&&(g_muscleVerifSim->random32(&vr))) return (maxVal == MUSCLE_NO_LIMIT) ? (uint32)vr : (((uint32)vr) % maxVal);}
+#endif
+
 #ifdef MUSCLE_AVOID_CPLUSPLUS11
    // coverity[dont_call] - don't care that rand() isn't secure, because this function isn't meant to be secure
    const uint32 r = rand();
@@ -2914,6 +2923,10 @@ uint32 GetInsecurePseudoRandomNumber32(uint32 maxVal)
 uint64 GetInsecurePseudoRandomNumber64(uint64 maxVal)
 {
    if (maxVal == 0) return 0;
+
+#ifdef MUSCLE_VERIF_HOOKS
+   {uint64_t vr; if ((g_muscleVerifSim)&&(g_muscleVerifSim->random64)&&(g_muscleVerifSim->random64(&vr))) return (maxVal == (uint64)-1) ? (uint64)vr : (((uint64)vr) % maxVal);}
+#endif
 
 #ifdef MUSCLE_AVOID_CPLUSPLUS11
    const uint32 v1 = GetInsecurePseudoRandomNumber32();
